@@ -562,3 +562,11 @@ _RULE_ADD8 = {
 }
 for _p, _t in _RULE_ADD8.items():
     PROPS[_p]['rule'] = PROPS[_p]['rule'] + _t
+
+for _p in ('C11', 'C12'):
+    PROPS[_p]['min_obs'] = dict(PROPS[_p]['min_obs'])
+    PROPS[_p]['min_obs']['quick'] = dict(PROPS[_p]['min_obs'].get('quick', {}), **{'histories_with_one_device_under_two_identities': 300})
+    PROPS[_p]['rule'] = PROPS[_p]['rule'] + ' One history in seven knows client 0\'s device under a second identity (01+MAC next to the bare hardware address); a scripted beginning lets the pool fill up and that identity ask twice while it is exhausted.'
+PROPS['C17']['min_obs'] = dict(PROPS['C17']['min_obs'])
+PROPS['C17']['min_obs']['quick'] = dict(PROPS['C17']['min_obs'].get('quick', {}), **{'nbns_responses_with_several_status_records': 500})
+PROPS['C17']['rule'] = PROPS['C17']['rule'] + ' A third of the node status responses spread their name array over two or three NBSTAT records (one may be empty or hold group names only).'
